@@ -46,10 +46,17 @@ XSchema(t) ==
     ("K" :> DUnion("nsb", "", TRUE, <<Tag("red", TVoid), Tag("green", TVoid), Tag("size", I32b), Tag("entry", TRef("L"))>>)) @@
     ("AL" :> DAlias("nsb", TList(TRef("L"), Unset, Unset), "")) @@
     ("OL" :> DAlias("nsb", TNull(TRef("L")), "")) @@            \* an alias of a nullable struct
-    ("Probe" :> DStruct("nsa", "", <<Fld("f1", t)>>, <<>>, FALSE))
+    ("Probe" :> DStruct("nsa", "", <<Fld("f1", t)>>, <<>>, FALSE)) @@
+    \* aliases that are part of a cycle THROUGH a nullable reference (only in the specs whose probe field uses them):
+    \* such a spec is illegal whatever its examples say, and examining the example must not run around the cycle
+    (IF t = TRef("CN") THEN ("CN" :> DAlias("nsb", TNull(TRef("CN")), ""))
+     ELSE IF t = TRef("CB") THEN ("CA" :> DAlias("nsb", TNull(TRef("CB")), "")) @@ ("CB" :> DAlias("nsb", TRef("CA"), ""))
+     ELSE <<>>)
+CycTypes == {TRef("CN"), TRef("CB")}
 XExamples(x) ==
     ("L" :> <<Ex("default", "l1" :> XLit(VInt(10))), Ex("other", "l1" :> XLit(VInt(7)))>>) @@
     ("Probe" :> <<Ex("default", "f1" :> x)>>) @@ ("K" :> <<>>) @@ ("A" :> <<>>) @@ ("AL" :> <<>>) @@ ("OL" :> <<>>)
+    @@ ("CN" :> <<>>) @@ ("CA" :> <<>>) @@ ("CB" :> <<>>)
 
 ETypes == << I32b, F64b, Str13, StrP, TBool, TTs("f1"), TBytes(Unset, Unset),
              TList(I32b, Unset, 2), TList(TList(Str13, Unset, Unset), Unset, Unset), TMap(I32b),
@@ -57,7 +64,8 @@ ETypes == << I32b, F64b, Str13, StrP, TBool, TTs("f1"), TBytes(Unset, Unset),
              TList(TRef("L"), 1, Unset), TMap(TRef("K")), TNull(TList(TNull(I32b), Unset, Unset)),
              \* an alias of a list of structs; floats bounded on one side only
              TRef("AL"), TFloat("Float64", Unset, 11), TFloat("Float64", 5, Unset), StrE, TList(StrE, Unset, Unset),
-             TRef("OL"), TNull(TRef("Probe")) >>       \* the last one lets an example refer to itself
+             TRef("OL"), TNull(TRef("Probe")),         \* this one lets an example refer to itself
+             TRef("CN"), TRef("CB") >>
 Int10 == XLit(VInt(10))
 StrOk == XLit(CStr(2, TRUE, 0))
 XExprs == { Int10, XLit(VInt(13)), XLit(VFloat(9)), XLit(VFloat(12)), StrOk, XLit(CStr(4, TRUE, 0)),
@@ -76,6 +84,7 @@ XLabels(sc, exs, n) ==
 Worst3(S) == IF "rej" \in S THEN "rej" ELSE IF "unspec" \in S THEN "unspec" ELSE "acc"
 RECURSIVE ExFits(_, _, _, _)
 ExFits(sc, exs, t, x) ==
+    IF t \in CycTypes THEN "rej" ELSE                          \* "aliases cannot form a cycle"
     LET u == Unalias(sc, t) IN
     IF u.k = "nullable" THEN (IF x.k = "null" THEN "acc" ELSE ExFits(sc, exs, u.e, x))
     ELSE IF x.k = "null" THEN "rej"                            \* "null can be used to mark that a NULLABLE type is not present"
@@ -314,7 +323,7 @@ Total == CASE pick.k = "exlit"  -> ExFits(XSchema(ETypes[pick.ti]), XExamples(pi
 \* a default the schema itself declares is a value the rule accepts when a route writes it (the schema is consistent)
 DeclaredDefaultsFit == \A i \in DOMAIN ADecls : ADecls[i].d.k # "absent" => AttrFits(ASchema, ADecls[i], ADecls[i].d) \in {"acc", "unspec"}
 \* null is an example of every nullable type and of no other
-NullIffNullable == pick.k = "exlit" /\ pick.x.k = "null" =>
+NullIffNullable == pick.k = "exlit" /\ pick.x.k = "null" /\ ETypes[pick.ti] \notin CycTypes =>
     ((ExFits(XSchema(ETypes[pick.ti]), XExamples(pick.x), ETypes[pick.ti], pick.x) = "acc")
         <=> (Unalias(XSchema(ETypes[pick.ti]), ETypes[pick.ti]).k = "nullable"))
 \* a qualified reference into a namespace that is not imported (or unknown) is never accepted
